@@ -1028,3 +1028,103 @@ Example C14_model_script_ok_nonvacuous :
      end
   /\ ok_steps true [empty_net] (model_steps [empty_net] so_script) = true.
 Proof. exact model_script_ok_example. Qed.
+Print Assumptions C14_model_script_ok_nonvacuous.
+
+(** ---- the clause "every live model stays consistent", derived (Proofs/C14_Consistent.v) ---- *)
+From Elfi Require Import Proofs.C14_Consistent.
+
+(** the decidable [consistent_b] read at Prop level, both ways ([uniq]: one edge per ordered pair,
+    an invariant of all scripts by [run_uniq] in Proofs/C14_Become.v) *)
+Theorem C14_consistent_b_sound :
+  forall m, consistent_b m = true -> Closed m /\ PD (s_edges m) /\ acyclic (s_edges m).
+Proof.
+  intros m H. split; [exact (consistent_Closed m H)|]. split; [exact (consistent_PD m H) | exact (consistent_acyclic m H)].
+Qed.
+Print Assumptions C14_consistent_b_sound.
+
+Theorem C14_consistent_b_complete :
+  forall m, Closed m -> uniq (s_edges m) -> PD (s_edges m) -> acyclic (s_edges m) -> consistent_b m = true.
+Proof. exact consistent_of_props. Qed.
+Print Assumptions C14_consistent_b_complete.
+
+Theorem C14_acyclic_b_iff :
+  forall m, Closed m -> (acyclic_b m = true <-> acyclic (s_edges m)).
+Proof. intros m Hc. split; [now apply acyclic_b_acyclic | now apply acyclic_acyclic_b]. Qed.
+Print Assumptions C14_acyclic_b_iff.
+
+(** one step keeps every live model consistent, outside the two hazards [ok_steps] excludes and
+    the input hazards it does NOT exclude (observed data for a missing node; a new node among its
+    own parents; a repeated positional parent) *)
+Theorem C14_step_consistent :
+  forall ms o ms',
+    step ms o = Ok ms' ->
+    forallb consistent_b ms = true -> Forall (fun m => uniq (s_edges m)) ms ->
+    input_hazard o (nth (handle_of o) ms empty_net) = false ->
+    edge_hazard o (nth (handle_of o) ms empty_net) = false ->
+    become_hazard o (nth (handle_of o) ms empty_net) = false ->
+    forallb consistent_b ms' = true.
+Proof. exact step_consistent. Qed.
+Print Assumptions C14_step_consistent.
+
+Theorem C14_consistent_along_derived :
+  forall strict ops,
+    no_input_hazard strict [empty_net] ops = true -> no_become_hazard strict [empty_net] ops = true ->
+    consistent_along strict [empty_net] ops = true.
+Proof. exact consistent_along_derived. Qed.
+Print Assumptions C14_consistent_along_derived.
+
+(** model_ok for whole scripts, every clause of [ok_steps] derived: no hypothesis on the model's
+    dumps any more.  [no_input_hazard] cannot be dropped ([C14_input_hazard_necessary]). *)
+Theorem C14_model_script_ok :
+  forall ops,
+    no_input_hazard true [empty_net] ops = true -> no_become_hazard true [empty_net] ops = true ->
+    ok_steps true [empty_net] (model_steps [empty_net] ops) = true.
+Proof. exact model_script_ok. Qed.
+Print Assumptions C14_model_script_ok.
+
+Theorem C14_model_script_ok_nonstrict :
+  forall ops,
+    no_input_hazard false [empty_net] ops = true ->
+    ok_steps false [empty_net] (model_steps [empty_net] ops) = true.
+Proof. exact model_script_ok_nonstrict. Qed.
+Print Assumptions C14_model_script_ok_nonstrict.
+
+Theorem C14_model_case_ok_strict :
+  forall ops,
+    no_input_hazard true [empty_net] ops = true -> no_become_hazard true [empty_net] ops = true ->
+    Edit.agree (model_case ops) = true /\ Edit.ok_strict (model_case ops) = true /\ Edit.ok (model_case ops) = true.
+Proof. exact model_case_ok_strict. Qed.
+Print Assumptions C14_model_case_ok_strict.
+
+Theorem C14_model_case_ok :
+  forall ops,
+    no_input_hazard false [empty_net] ops = true ->
+    Edit.agree (model_case ops) = true /\ Edit.ok (model_case ops) = true.
+Proof. exact model_case_ok. Qed.
+Print Assumptions C14_model_case_ok.
+
+(** every live model reached by a script that raises no hazard flag at any step is consistent *)
+Theorem C14_reachable_consistent :
+  forall ops ms m,
+    hazard_free [empty_net] ops = true -> run [empty_net] ops = Ok ms -> In m ms -> consistent_b m = true.
+Proof. exact reachable_consistent. Qed.
+Print Assumptions C14_reachable_consistent.
+
+(** the three input hazards, each alone in a script with no edge / become hazard: the model's own
+    dump is not [consistent_b] and the model's own record fails [ok_steps] (strict and non-strict) *)
+Example C14_input_hazard_necessary :
+  forallb (fun ops =>
+     negb (consistent_along true [empty_net] ops)
+     && no_become_hazard true [empty_net] ops
+     && negb (no_input_hazard true [empty_net] ops)
+     && negb (ok_steps true [empty_net] (model_steps [empty_net] ops))
+     && negb (ok_steps false [empty_net] (model_steps [empty_net] ops))
+     && match run [empty_net] ops with Ok [m] => negb (consistent_b m) | _ => false end)
+    [ih_observe_missing; ih_self_parent; ih_repeated_parent] = true.
+Proof. exact input_hazard_necessary. Qed.
+
+Example C14_model_script_ok_full_nonvacuous :
+  no_input_hazard true [empty_net] so_script = true
+  /\ no_become_hazard true [empty_net] so_script = true
+  /\ ok_steps true [empty_net] (model_steps [empty_net] so_script) = true.
+Proof. exact model_script_ok_full_example. Qed.
